@@ -85,6 +85,9 @@ def do_replay(pid, path):
     return status
 
 
+COVER_PIDS = {"C02", "C05", "C07", "C08", "C09", "C10", "C11", "C13", "C14", "C15"}
+
+
 def main(argv=None):
     ap = argparse.ArgumentParser()
     ap.add_argument("pid")
@@ -132,6 +135,23 @@ def run_check(P, pid, tier, seed, t0, a):
     thms, bad = core.audit_axioms(pid)
     if bad:
         raise MachineryError(f"non-standard axioms: {bad}")
+    # which inputs the traced paths of the branching functions cover (Cgm/Trace/Cover.lean: exclusive, and exhaustive or
+    # with the exact covered set) -- model-only statements, audited with the properties that have branching kernels
+    if pid in COVER_PIDS:
+        rc, out = core.lake_build(["Cgm.Trace.Cover"])
+        if rc != 0:
+            raise MachineryError(f"lake build Cgm.Trace.Cover failed:\n{out[-3000:]}")
+        rc, out = core.run(["lake", "env", "lean", "Cgm/Audit/Cover.lean"], cwd=core.LEAN, timeout=900)
+        if rc != 0:
+            raise MachineryError(f"audit of Cgm.Trace.Cover failed:\n{out[-2000:]}")
+        ncov = 0
+        for line in out.split("\n"):
+            if line.startswith("THEOREM "):
+                ncov += 1
+                axs = {a.strip() for a in line.split(" AXIOMS ")[1].strip().strip("[]").split(",") if a.strip()}
+                if not axs <= core.STD_AXIOMS:
+                    raise MachineryError(f"{line.split(' ')[1]} uses non-standard axioms {axs}")
+        notes.append(f"path-coverage theorems (Cgm/Trace/Cover.lean) checked: {ncov}")
     t_lean = time.time() - t1
     log(f"[{pid}] P: {len(thms)} theorems, axioms ok ({t_lean:.1f}s)")
     if tier == "thorough":
